@@ -671,7 +671,7 @@ class MacroProgram(ElementProgram):
             return nodes.Text(node)
 
         if node.startswith('<!--?'):
-            return nodes.Text('<!--' + node.lstrip('<!-?'))
+            return nodes.Text('<!--' + node[5:])
 
         if not self._interpolation[-1] or '${' not in node:
             return nodes.Text(node)
